@@ -333,7 +333,8 @@ Proof.
   exists src3, dst3. split; [|split; [|split; [|split; [|split]]]].
   - (* the run *)
     assert (Hg1' : N.eqb r (d_root s) = false) by (rewrite Hroot; exact Hg1).
-    unfold dom_transfer. rewrite Hg1', Hrem1. cbv beta iota zeta. rewrite Hirp, Hstep2.
+    assert (Hhas : has dest (d_insts t) = true) by (unfold has; rewrite Hlkt; unfold aflat; fold T; rewrite Hdi; reflexivity).
+    unfold dom_transfer. rewrite Hg1', Hhas. cbn [negb]. rewrite Hrem1. cbv beta iota zeta. rewrite Hirp, Hstep2.
     cbn [rbind]. rewrite Hins1, Hirc. fold kids. rewrite Hrun. cbn [rbind].
     rewrite Hpush. reflexivity.
   - (* the source represents the forest without the subtree *)
